@@ -8,6 +8,7 @@ from pathlib import Path
 from typing import TYPE_CHECKING
 from typing import Any
 from typing import Awaitable
+from typing import Coroutine
 from typing import Iterator
 from typing import Mapping
 from typing import Optional
@@ -218,6 +219,14 @@ class BoundTemplate:
             return True
 
         uptodate = self.uptodate()
+        if isinstance(uptodate, Awaitable):
+            # This template was loaded asynchronously and has an async `uptodate`,
+            # which can't be awaited from here. Report it as out of date so it is
+            # reloaded synchronously rather than failing the request.
+            if isinstance(uptodate, Coroutine):
+                uptodate.close()
+            return False
+
         if not isinstance(uptodate, bool):
             raise LiquidError(
                 f"expected a boolean from uptodate, found {type(uptodate).__name__}",
